@@ -37,7 +37,7 @@ func vC15Segment(name string) string {
 // only by the configured rewrite; the percent-encoding of the path is preserved exactly.
 func VerifC15URL() {
 	rawPath := "/api/" + vC15Segment("seg1") + "/" + vC15Segment("seg2")
-	rawQuery := []string{"", "x=1&y=2", "y=2&x=1&x=3", "q=a%20b&x=1"}[verifapi.NondetChoice("query", 4)]
+	rawQuery := []string{"", "x=1&y=2", "y=2&x=1&x=3", "q=a%20b&x=1", "%78=9&y=2"}[verifapi.NondetChoice("query", 5)]
 	in, err := url.ParseRequestURI(rawPath + "?" + rawQuery)
 	if err != nil {
 		verifapi.Cover("unparsable")
